@@ -737,7 +737,12 @@ class NameControlChars(Harness):
     def run(self, M, inp):
         from props import outlib as OL
         L = {c: ['x'] for c in OL.CATS}
-        L[self.cat] = ['ab' + inp['c'] + 'cd', 'x']
+        if self.cat == 'gss':
+            # a key exchange of a known GSS family whose mechanism part carries the control character: it is rated AND recommended for removal, so the
+            # name also reaches the '(rec)' lines
+            L['kex'] = ['gss-group1-sha1-ab' + inp['c'] + 'cd', 'x']
+        else:
+            L[self.cat] = ['ab' + inp['c'] + 'cd', 'x']
         r = OL.run_output(M, L)
         if isinstance(r['ret'], Exc):
             return {'exc': r['ret']}
@@ -901,7 +906,7 @@ def tasks(tier):
         T.append(PaddingCut(k))
     for n in range(0, 6):
         T.append(KexinitTail(n))
-    for cat in ('kex', 'key', 'enc', 'mac'):
+    for cat in ('kex', 'key', 'enc', 'mac', 'gss'):
         T.append(NameControlChars(cat))
     for which in ('ciphers', 'auths', 'both'):
         for json in (False, True):
